@@ -213,17 +213,14 @@ type memConnOpts struct {
 	limitEndpoint int64
 	maxMsg        uint32
 	opts          []client.Option
-<<<<<<< HEAD
 	// perMessageGoroutine: dispatch every received message in its own goroutine
 	// (config.ProcessReceivedMessage), so copies of one request are processed concurrently
 	perMessageGoroutine bool
 	// afterHandler, when set, runs on the receive path after the dispatch handler returned and before the
 	// library's own clean-up of the received message (through config.ProcessReceivedMessage)
 	afterHandler func(r *pool.Message)
-=======
 	// optional: Config.ProcessReceivedMessage (nil = the connection's default)
 	processReceived config.ProcessReceivedMessageFunc[*client.Conn]
->>>>>>> wip-C11
 }
 
 func newMemConn(o memConnOpts) *memConn {
